@@ -260,7 +260,7 @@ func cmdCheck(args []string) int {
 				if !res.Ran {
 					fmt.Printf("   WITNESS-REPLAY-ERROR %s: %s\n", l, res.Err)
 					exit = max(exit, 3)
-				} else if !res.Covers[l] || len(res.Failed) > 0 || res.AssumeFailed {
+				} else if !res.Covers[l] || unexpectedFailures(res.Failed, r.Violations) || res.AssumeFailed {
 					fmt.Printf("   ENGINE-MISMATCH witness for cover %q does not reproduce natively (covers=%v failed=%v assumeFailed=%v) dir=%s\n", l, res.Covers, res.Failed, res.AssumeFailed, dir)
 					exit = max(exit, 3)
 				} else {
@@ -318,6 +318,22 @@ func cmdCheck(args []string) int {
 	writeEvidence(id, *tier, seed, ps, results, nViol, time.Since(t0).Seconds())
 	fmt.Printf("== %s: exit %d (%.1fs, %d native replays)\n", id, exit, time.Since(t0).Seconds(), replayed)
 	return exit
+}
+
+// unexpectedFailures: a witness may legitimately fail an assertion the engine also found violated.
+func unexpectedFailures(failed []string, vs []*Violation) bool {
+	for _, f := range failed {
+		ok := false
+		for _, v := range vs {
+			if v.Label == f || strings.HasPrefix(v.Label, "implicit:") && strings.HasPrefix(f, "panic:") {
+				ok = true
+			}
+		}
+		if !ok {
+			return true
+		}
+	}
+	return false
 }
 
 func writeCexInfo(dir, id string, spec *HarnessSpec, v *Violation) {
